@@ -87,6 +87,8 @@ def cases(ctx, big=False):
     # special cases: -m together with -f, empty message with stdin, nothing at all
     out.append(dict(escape=False, hardwrap=False, renderer="html", plugins=None, chan="-m+-f", outfile=False, doc="both **given**"))
     out.append(dict(escape=True, hardwrap=False, renderer="html", plugins=None, chan="none", outfile=False, doc=""))
+    for rend in RENDERERS:
+        out.append(dict(escape=False, hardwrap=False, renderer=rend, plugins=None, chan="-f", outfile=True, inplace=True, doc="# Title\n\nin *place* text\n"))
     for doc in ("---", "-x", "- item\n- two", "-", "--help me", "@file"):
         out.append(dict(escape=True, hardwrap=False, renderer="html", plugins=None, chan="-m", outfile=False, doc=doc))
     return out
@@ -111,15 +113,17 @@ def one(case, tmp, idx):
     if case["renderer"] != "html": args += ["-r", case["renderer"]]
     if case["plugins"]:
         args += ["-p"] + case["plugins"]
+    if case.get("inplace") and case["chan"] == "-f" and case["outfile"]:
+        opath = fpath          # converting a file in place: the input must be read before the output file is opened
     if case["outfile"]:
         args += ["-o", opath]
-    rc, so, se = run_cli(args, stdin, tmp)
-    written = None
-    if os.path.exists(opath):
-        written = open(opath, encoding="utf-8", newline="").read()
     fs_content = None
     if file is not None:
         fs_content = open(fpath, encoding="utf-8", newline="").read()
+    rc, so, se = run_cli(args, stdin, tmp)
+    written = None
+    if os.path.exists(opath) and case["outfile"]:
+        written = open(opath, encoding="utf-8", newline="").read()
     req = ("cli", opt(msg), opt(file), "-" if not case["plugins"] else enc_list(case["plugins"]),
            "1" if case["escape"] else "0", "1" if case["hardwrap"] else "0", opt(opath if case["outfile"] else None),
            enc(case["renderer"]), opt(stdin), opt(fs_content))
